@@ -76,6 +76,7 @@ VARIABLES
 vars == <<log, applied, sm, snaps, partial, capturing, nextHid, ops, hist>>
 
 NoKey == "none"
+GivenEmpty == "<e>"
 EmptyF == [k \in {} |-> 0]
 NoHid == [mref |-> {}, mlost |-> {}]
 Empty == [cfg |-> EmptyF, ns |-> EmptyF, usr |-> EmptyF, seq |-> EmptyF,
@@ -127,9 +128,11 @@ WithHid(st, newRefs, recompute) ==
 
 ApplyReq(st, r) ==
     CASE r.t = "cfg_set" ->
+            \* type / description: "" = not given (the stored one stays), GivenEmpty = given as the empty string
+            \* (the stored one is cleared), anything else = given
             LET has == r.k \in DOMAIN st.cfg
-                ty  == IF r.ty # "" THEN r.ty ELSE IF has THEN st.cfg[r.k].ty ELSE ""
-                ds  == IF r.ds # "" THEN r.ds ELSE IF has THEN st.cfg[r.k].desc ELSE ""
+                ty  == IF r.ty = GivenEmpty THEN "" ELSE IF r.ty # "" THEN r.ty ELSE IF has THEN st.cfg[r.k].ty ELSE ""
+                ds  == IF r.ds = GivenEmpty THEN "" ELSE IF r.ds # "" THEN r.ds ELSE IF has THEN st.cfg[r.k].desc ELSE ""
             IN
             IF has /\ st.cfg[r.k].content = r.v
             THEN \* same md5: no new history entry; type and description follow when given
@@ -138,7 +141,9 @@ ApplyReq(st, r) ==
                  IN [st EXCEPT !.cfg = Put(st.cfg, r.k, [content |-> r.v, ty |-> ty, desc |-> ds,
                                                           hist |-> TailTo(Append(old, [id |-> r.hid, content |-> r.v]), HistMax)])]
       [] r.t = "cfg_del" -> [st EXCEPT !.cfg = Del(st.cfg, r.k)]
-      [] r.t = "ns_set"  -> [st EXCEPT !.ns = Put(st.ns, r.k, r.v)]
+      \* namespace name: "" = not given (an existing namespace keeps its name), GivenEmpty = the empty name
+      [] r.t = "ns_set"  -> [st EXCEPT !.ns = Put(st.ns, r.k, IF r.v = GivenEmpty THEN ""
+                                                               ELSE IF r.v = "" /\ r.k \in DOMAIN st.ns THEN st.ns[r.k] ELSE r.v)]
       [] r.t = "ns_del"  -> [st EXCEPT !.ns = Del(st.ns, r.k)]
       [] r.t = "usr_set" -> [st EXCEPT !.usr = Put(st.usr, r.k, r.v)]
       [] r.t = "usr_del" -> [st EXCEPT !.usr = Del(st.usr, r.k)]
@@ -191,6 +196,16 @@ ApplyReq(st, r) ==
       [] r.t = "srv_del" ->
             IF r.k \notin DOMAIN st.srv THEN st
             ELSE WithHid([st EXCEPT !.srv = Del(st.srv, r.k)], {}, TRUE)
+      \* ---- what a data import (transfer file) sends: whole values
+      \* ConfigFullValue: value, type, description and history as given; the key is listed
+      [] r.t = "cfg_full" -> [st EXCEPT !.cfg = Put(st.cfg, r.k, [content |-> r.v, ty |-> r.ty, desc |-> r.ds, hist |-> r.h])]
+      \* NamespaceRaftReq::Update: renames an existing namespace, does NOT create one
+      [] r.t = "ns_upd" -> IF r.k \in DOMAIN st.ns THEN [st EXCEPT !.ns = Put(st.ns, r.k, r.v)] ELSE st
+      \* McpManagerRaftReq::SetToolSpec / SetServer / ImportFinished
+      [] r.t = "tool_full" -> [st EXCEPT !.tool = Put(st.tool, r.k, [cur |-> r.cur, vers |-> r.vers])]
+      [] r.t = "srv_full" -> WithHid([st EXCEPT !.srv = Put(st.srv, r.k, [name |-> r.v, cur |-> r.cur, rel |-> r.rel, hist |-> r.h])],
+                                     SrvRefs([cur |-> r.cur, rel |-> r.rel, hist |-> r.h]), FALSE)
+      [] r.t = "mcp_fin" -> WithHid(st, {}, TRUE)
       [] OTHER -> st
 
 RECURSIVE Fold(_, _, _, _)
@@ -349,6 +364,36 @@ SnapshotsExact == \A i \in 1..Len(snaps) : snaps[i].st = Obs(Fold(Empty, log, 1,
 Done == ops = MaxOps
 ExportBehaviour == Done => PrintT(<<"REPLAY", ToJson([steps |-> hist])>>)
 View == <<log, applied, sm, snaps, partial, capturing>>
+
+\* ---- data transfer: what an export of `st` followed by an import sends to the target, in the order of the code
+\* (configs, tool specs, servers, ImportFinished is last; namespaces, users, persistent instances in between).
+\* Ids (history ids, tool versions, server / value ids) are renumbered by the importer from the target's
+\* sequences - order preserving; the model keeps them.  Sequences and the cache are not exported.
+SeqOfSet(S) == CHOOSE q \in [1..Cardinality(S) -> S] : \A i, j \in 1..Cardinality(S) : i # j => q[i] # q[j]
+ImportReqs(st) ==
+    LET cfgs  == SeqOfSet(DOMAIN st.cfg)
+        tools == SeqOfSet(DOMAIN st.tool)
+        srvs  == SeqOfSet(DOMAIN st.srv)
+        nss   == SeqOfSet(DOMAIN st.ns)
+        usrs  == SeqOfSet(DOMAIN st.usr)
+        nams  == SeqOfSet(DOMAIN st.nam)
+    IN    [i \in 1..Len(cfgs)  |-> [t |-> "cfg_full", k |-> cfgs[i], v |-> st.cfg[cfgs[i]].content, ty |-> st.cfg[cfgs[i]].ty,
+                                     ds |-> st.cfg[cfgs[i]].desc, h |-> st.cfg[cfgs[i]].hist]]
+       \o [i \in 1..Len(tools) |-> [t |-> "tool_full", k |-> tools[i], cur |-> st.tool[tools[i]].cur, vers |-> st.tool[tools[i]].vers]]
+       \o [i \in 1..Len(srvs)  |-> [t |-> "srv_full", k |-> srvs[i], v |-> st.srv[srvs[i]].name, cur |-> st.srv[srvs[i]].cur,
+                                     rel |-> st.srv[srvs[i]].rel, h |-> st.srv[srvs[i]].hist]]
+       \o [i \in 1..Len(nss)   |-> [t |-> "ns_upd", k |-> nss[i], v |-> st.ns[nss[i]]]]
+       \o [i \in 1..Len(usrs)  |-> [t |-> "usr_set", k |-> usrs[i], v |-> st.usr[usrs[i]]]]
+       \o [i \in 1..Len(nams)  |-> [t |-> "nam_set", k |-> nams[i], w |-> st.nam[nams[i]].w, en |-> st.nam[nams[i]].en, upd |-> TRUE]]
+       \o <<[t |-> "mcp_fin"]>>
+\* what an empty node serves after the import
+Imported(st) == LET q == ImportReqs(st) IN Obs(Fold(Empty, q, 1, Len(q)))
+\* ... and what it should: everything exported.  As coded a namespace arrives as an UPDATE, which an empty
+\* target ignores (a namespace is only re-created as a side effect of a config that lives in it - outside this
+\* model): the import rebuilds everything except the namespaces.  (Not one of the listed properties; checked
+\* at model level and observed - not judged - on the code.)
+Exportable(st) == [Obs(st) EXCEPT !.seq = EmptyF, !.cch = EmptyF]
+ImportRebuildsAllButNamespaces == Imported(sm) = [Exportable(sm) EXCEPT !.ns = EmptyF]
 
 \* ---- thin-case generation (MCP): behaviours in which a tool that some server referred to is changed or removed
 \* later on, with a compaction somewhere - the shapes in which bookkeeping that is kept incrementally, or not
